@@ -836,7 +836,13 @@ namespace sim
 			void abort_recv_handlers();
 
 			virtual bool internal_is_listening();
+
+			// the drop notification of this socket's SYN: a connection attempt
+			// that a full queue dropped is sent again
+			aux::function<void(aux::packet)> internal_syn_drop_fun();
 		protected:
+
+			void syn_dropped(aux::packet p);
 
 			void maybe_wakeup_reader();
 			void maybe_wakeup_writer();
